@@ -1168,6 +1168,8 @@ def _estimate(w: Watch, start: dict, tol: float, r: random.Random, boot: int = 0
                 w.viol('bootstrap-results-shape', f'{bmat.shape} columns {bcol}')
             else:
                 out['Bootstrap Std err'] = {w.back[n]: float(table.loc[n, bcol[0]]) for n in names}
+                out['boot_ok'] = bool(all(math.isfinite(float(table.loc[n, bcol[0]])) and float(table.loc[n, bcol[0]]) <= 5 * max(
+                    rse.get(n, 0.0) if math.isfinite(rse.get(n, 0.0)) else 0.0, 1e-3) for n in names) and out.get('well_conditioned'))
                 out['bootstrap_mean'] = {w.back[n]: float(bmat[:, k].mean()) for k, n in enumerate(names)}
                 sub = list(names)
                 r.shuffle(sub)
@@ -1366,7 +1368,19 @@ def _run_model(case):
                     continue
                 if eo.get('active') != other.get('active'):
                     viol(f'active-bound-flags-move-under-{suffix}', f'{eo.get("active")} vs {other.get("active")}', wit)
-                for col in ('Std err', 'Rob. Std err', 't-test', 'Rob. t-test', 'Bootstrap Std err', 'bootstrap_mean'):
+                # bootstrap columns: every resample is a small estimation problem of its own, often nearly flat
+                # (estimates in the tens): only a pairing error is looked for, and only on well-behaved resamples
+                for col in ('Bootstrap Std err', 'bootstrap_mean'):
+                    if col in eo and col in other and eo.get('boot_ok') and other.get('boot_ok'):
+                        rec.ev()
+                        rec.c('bootstrap_O_vs_%s_compared' % tag)
+                        if not all(close(other[col].get(n, float('nan')), eo[col][n], 0.05, 1e-3) for n in eo[col]):
+                            if _perm_explains({n: other[col].get(n, float('nan')) for n in eo[col]}, eo[col], 0.05, 1e-3):
+                                viol(f'bootstrap-statistics-not-attached-to-the-corresponding-parameter-under-{suffix}',
+                                     f'{col}: O {eo[col]} {tag} {other[col]}', wit)
+                                break
+                            rec.c('bootstrap_mismatch_not_a_permutation')
+                for col in ('Std err', 'Rob. Std err', 't-test', 'Rob. t-test'):
                     if col in eo and col in other:
                         rec.ev()
                         bad = [n for n in eo[col] if math.isfinite(eo[col][n]) and abs(eo[col][n]) < 1e100 and not close(
@@ -1636,7 +1650,7 @@ def finalize(cov, tier):
             'fixed_parameters_after_estimation_checked', 'sensitivity_draws_by_name_checked', 'estimates_O_vs_R_compared',
             'estimates_O_vs_S_compared', 'likelihood_O_vs_R', 'likelihood_O_vs_S', 'simulate_O_vs_R', 'duplicates_refused',
             'renaming_order_reversing', 'models_with_one_sided_bounds', 'models_with_several_formulas',
-            'directed_fixed_update_cases', 'estimations_with_well_separated_estimates', 'bootstrap_by_name_checked']
+            'directed_fixed_update_cases', 'estimations_with_well_separated_estimates', 'bootstrap_by_name_checked', 'bootstrap_O_vs_R_compared']
     from ..gen import c03_models as gm
 
     need += ['renaming_' + k for k in gm.RENAMINGS]
